@@ -115,7 +115,15 @@ def analyse(F):
         if len(segs) != 1:
             return NotImplemented
         probe = segs[0].f(isym("_p"))
-        is_l2 = isinstance(probe, Tup) and len(probe.items) == 2 and isinstance(probe.items[0], Tup) and isinstance(probe.items[1], Vec)
+        # the accumulation loop is recognised by what one element carries (however the tuple is nested):
+        # a verifier, its proof and its scalar vector
+
+        def flat(v):
+            v = I_.deref(v)
+            return [y for x in v.items for y in flat(x)] if isinstance(v, Tup) else [v]
+
+        parts = flat(probe)
+        is_l2 = any(isinstance(x, Struct) and x.path.endswith("Verifier") for x in parts) and any(isinstance(x, Struct) and x.path.endswith("R1CSProof") for x in parts) and any(isinstance(x, Vec) for x in parts)
         if not is_l2:
             return NotImplemented
         # ---- the accumulation loop: one generic instance k, evaluated in isolation -------------
@@ -146,7 +154,7 @@ def analyse(F):
         n_draw = len(I_.draw_log)
         try:
             I_.bind(pat, elem, env)
-            I_.ev_raw(body, env)
+            I_.run_body(body, env)
         finally:
             I_.loop_ctx.pop()
             scat = I_.scatter
